@@ -399,7 +399,8 @@ def run_config(cfg):
 
             loop.on_jump = on_jump
             try:
-                v = loop.run_until_complete(root.co_run())
+                # half of the generated trees go through the synchronous wrappers run() / shutdown()
+                v = root.run() if cfg.get("sync_api") else loop.run_until_complete(root.co_run())
                 res["outcome"] = ["true" if v is True else "false" if v is False else repr(v)]
             except Deadlock:
                 res["outcome"] = ["deadlock"]
@@ -425,7 +426,7 @@ def run_config(cfg):
                 # a later explicit shutdown sends nothing more
                 loop.on_jump = lambda t: rec.rec("latetick", t)
                 try:
-                    v2 = loop.run_until_complete(root.co_shutdown())
+                    v2 = root.shutdown() if cfg.get("sync_api") else loop.run_until_complete(root.co_shutdown())
                     rec.rec("lateshutdown", "true" if v2 is True else "false" if v2 is False else "none" if v2 is None else repr(v2))
                 except BaseException as e:  # noqa
                     rec.rec("lateshutdown", "raise:" + type(e).__name__)
